@@ -1,5 +1,6 @@
 import Bmc.Proofs.GenOrch.RetrieveSupportedCipherSuites
 import Bmc.Proofs.GenOrch.GetEntityInstances
+import Bmc.Proofs.GenOrch.GetSensorInfo
 import Bmc.Proofs.EndToEnd.DiscoveryC12
 import Bmc.Proofs.C16
 /-! # C16 (complete, ordered, each page asked once), stated about the paging loops AS REGENERATED on this run
@@ -68,6 +69,44 @@ theorem generated_getEntityInstances_pages (b : TBmc) (junk) (typ E : UInt8) (fu
   have e : entityInstances (handOf b typ) E.toNat = entityInstances B.respond E.toNat := instLoop_congr _ _ _ hb _ _ _
   rw [e, Proofs.C16.dcmi_requests B E.toNat l hB hn hp] at h1 h2
   exact ⟨h1, h2⟩
+
+theorem sensorMapLoop_congr (bmc bmc' : Proto.Enum.Bmc) :
+    ∀ (es : List Nat) (m : SMap), (∀ e ∈ es, ∀ s, s < 256 → bmc e s = bmc' e s) →
+      sensorMapLoop bmc es m = sensorMapLoop bmc' es m := by
+  intro es
+  induction es with
+  | nil => intro m _; rfl
+  | cons e rest ih =>
+    intro m h
+    have he : entityInstances bmc e = entityInstances bmc' e :=
+      instLoop_congr bmc bmc' e (h e (by simp)) _ _ _
+    simp only [sensorMapLoop, he]
+    cases hr : entityInstances bmc' e with
+    | mk l1 r =>
+      cases r with
+      | ok ids => simp only [ih (m.set e ids) (fun e' he' => h e' (by simp [he']))]
+      | _ => rfl
+
+theorem getSensorInfo_congr (bmc bmc' : Proto.Enum.Bmc)
+    (h : ∀ e, e ∈ Proto.Enum.stdEntities ++ Proto.Enum.dcmiEntities → ∀ s, s < 256 → bmc e s = bmc' e s) :
+    getSensorInfo bmc = getSensorInfo bmc' := by
+  have h1 := sensorMapLoop_congr bmc bmc' Proto.Enum.stdEntities [] (fun e he => h e (by simp [he]))
+  have h2 := sensorMapLoop_congr bmc bmc' Proto.Enum.dcmiEntities [] (fun e he => h e (by simp [he]))
+  unfold getSensorInfo fallback sensorMap
+  rw [h1, h2]
+
+/-- A BMC holding record IDs for the three standard temperature entities (air inlet 37h, processor 03h, system board 07h; at least
+    one record ID in all, at most 255 each), served in pages of any size ≥ 1: `GetSensorInfo` AS TRANSLATED ON THIS RUN returns
+    exactly those three lists (and never touches the DCMI-specific entity IDs: `C16.fallback_iff`). -/
+theorem generated_GetSensorInfo_std (b : TBmc) (junk) (fuel : Nat) (hf : 256 ≤ fuel) (log : List GetDCMISensorInfoReq)
+    (B : DcmiBmc) (hp : 1 ≤ B.pageSize) (i0 i1 i2 : List Nat)
+    (h0 : B.ids 0x37 = some i0) (h1 : B.ids 0x03 = some i1) (h2 : B.ids 0x07 = some i2)
+    (l0 : i0.length ≤ 255) (l1 : i1.length ≤ 255) (l2 : i2.length ≤ 255) (hpos : 0 < i0.length + i1.length + i2.length)
+    (hb : ∀ e, e ∈ Proto.Enum.stdEntities ++ Proto.Enum.dcmiEntities → ∀ s, s < 256 → handOf b 1 e s = B.respond e s) :
+    (dcmi_GetSensorInfo fuel (ansOf b junk) log).1.map viewInfo = RF.ok ⟨i0, i1, i2⟩ := by
+  obtain ⟨g1, _⟩ := Proofs.GenOrch.GetSensorInfo_gen_eq b junk fuel hf log
+  rw [getSensorInfo_congr _ _ hb, Proofs.C16.sensorInfo_std B hp i0 i1 i2 h0 h1 h2 l0 l1 l2 hpos] at g1
+  exact g1
 
 /-- the hypothesis on the BMC is satisfiable: a typed BMC holding 20 record IDs for entity 3, served 8 at a time -/
 def sampleDcmi : DcmiBmc := ⟨fun e => if e = 3 then some ((List.range 20).map (· + 100)) else none, 8⟩
